@@ -10,7 +10,7 @@ class Engine(BaseEngine):
     prop = "C06"
     rule = ("(filter, event) pairs built from parts with OwnedFilter::new/OwnedEvent::new; pools: 6 ids, 4 authors, 15 kinds, "
             "11 boundary times, names incl. multi-letter/empty, values incl. empty/prefix/extension/NUL/multi-byte/181-183 bytes; "
-            "structured stream (filter derived from the event's own fields then perturbed) + random stream + exhaustive small "
+            "structured stream (filter derived from the event's own fields then perturbed) + repeated constraint names (2-4 constraints of one name against one tag) + random stream + exhaustive small "
             "universe (thorough). non-trivial = distinct case whose filter has at least one non-empty field")
     trusted = ["theorem C06_matches_spec is about Access.event_matches on Layout.enc_filter/enc_event; this run compares the "
                "implementation's encodings byte-for-byte with enc_* and its answer with both the model and spec_matches"]
@@ -44,6 +44,24 @@ class Engine(BaseEngine):
             f["tags"].append([rng.choice(NAMES)] + rand_sub(rng, VALUES, 2))
         return f
 
+    def repeat_filter(self, rng, e):
+        """several constraints with the SAME name (expressible through from_parts only), each satisfied - or one
+        of them not - by the same single tag of the event: NIP-01 evaluates every constraint on its own"""
+        f = {"ids": [], "authors": [], "kinds": [], "tags": [], "since": None, "until": None, "limit": None}
+        tagged = [t for t in e["tags"] if len(t) > 1]
+        if not tagged:
+            e["tags"] = e["tags"] + [[rng.choice([b"e", b"p", b"t"]), rng.choice(VALUES)]]
+            tagged = [e["tags"][-1]]
+        t = rng.choice(tagged)
+        if rng.random() < 0.5:
+            e["tags"] = [t]                      # fewer tags than constraints
+        for _ in range(rng.choice([2, 2, 3, 4])):
+            vals = rand_sub(rng, VALUES, 2)
+            if rng.random() < 0.85:
+                vals.insert(rng.randrange(len(vals) + 1), t[1])
+            f["tags"].append([t[0]] + vals)
+        return f
+
     def rand_filter(self, rng):
         return {"ids": rand_sub(rng, IDS), "authors": rand_sub(rng, AUTHORS), "kinds": rand_sub(rng, KINDS),
                 "tags": [[rng.choice(NAMES)] + rand_sub(rng, VALUES) for _ in range(rng.choice([0, 0, 1, 2]))],
@@ -55,7 +73,9 @@ class Engine(BaseEngine):
         out = []
         for i in range(n):
             e = rand_event(rng)
-            if i % 3 == 0:
+            if i % 10 == 9:
+                out.append(("repeated-names", "match %s %s" % (C.t_filter(self.repeat_filter(rng, e)), C.t_event(e))))
+            elif i % 3 == 0:
                 out.append(("random", "match %s %s" % (C.t_filter(self.rand_filter(rng)), C.t_event(e))))
             else:
                 out.append(("near", "match %s %s" % (C.t_filter(self.near_filter(rng, e)), C.t_event(e))))
